@@ -127,130 +127,8 @@ Theorem C41_d2stepAny_continuous yr x0 oox x : continuous (fun t => k_d2stepAny 
 Proof. exact (d2stepAny_continuous yr x0 oox x). Qed.
 Print Assumptions C41_d2stepAny_continuous.
 
-Theorem C41_Polynomial_deriv_every_order cs k x :
-  is_derive_n (poly_value ROps cs) k x (poly_deriv ROps cs k x).
-Proof. exact (Polynomial_deriv_every_order cs k x). Qed.
-Print Assumptions C41_Polynomial_deriv_every_order.
-
-Theorem C41_Polynomial_value_is_sum cs x : poly_value ROps cs x = pd 0 cs x.
-Proof. exact (Polynomial_value_is_sum cs x). Qed.
-Print Assumptions C41_Polynomial_value_is_sum.
-
-Theorem C41_Sinusoid_deriv_every_order a w p n t :
-  is_derive_n (sin_value ROps a w p) n t (sin_deriv ROps a w p n t).
-Proof. exact (Sinusoid_deriv_every_order a w p n t). Qed.
-Print Assumptions C41_Sinusoid_deriv_every_order.
-
-Theorem C41_Linear_partials cs dc i x : length cs = S (length x) -> (i < length x)%nat ->
-  is_derive (fun t => linF cs dc (upd i t x)) (nth i x 0) (lin_deriv ROps cs (i :: dc) x).
-Proof. exact (Linear_partials cs dc i x). Qed.
-Print Assumptions C41_Linear_partials.
-
-Theorem C41_Linear_value_is_affine cs x : lin_value ROps cs x = dotp x cs.
-Proof. exact (Linear_value_is_affine cs x). Qed.
-Print Assumptions C41_Linear_value_is_affine.
-
-Theorem C41_Constant_partials v dc i x :
-  is_derive (fun t => constF v dc (upd i t x)) (nth i x 0) (const_deriv ROps v (i :: dc) x).
-Proof. exact (Constant_partials v dc i x). Qed.
-Print Assumptions C41_Constant_partials.
-
-Theorem C41_Step_value_is_stepAny y0 y1 x0 x1 x : x0 <> x1 ->
-  step_value ROps y0 y1 x0 x1 x = k_stepAny ROps y0 (y1 - y0) x0 (1 / (x1 - x0)) x.
-Proof. exact (Step_value_is_stepAny y0 y1 x0 x1 x). Qed.
-Print Assumptions C41_Step_value_is_stepAny.
-
-Theorem C41_Step_deriv1_is_dstepAny y0 y1 x0 x1 x : x0 <> x1 ->
-  step_deriv ROps y0 y1 x0 x1 1 x = Some (k_dstepAny ROps (y1 - y0) x0 (1 / (x1 - x0)) x).
-Proof. exact (Step_deriv1_is_dstepAny y0 y1 x0 x1 x). Qed.
-Print Assumptions C41_Step_deriv1_is_dstepAny.
-
-Theorem C41_Step_deriv2_is_d2stepAny y0 y1 x0 x1 x : x0 <> x1 ->
-  step_deriv ROps y0 y1 x0 x1 2 x = Some (k_d2stepAny ROps (y1 - y0) x0 (1 / (x1 - x0)) x).
-Proof. exact (Step_deriv2_is_d2stepAny y0 y1 x0 x1 x). Qed.
-Print Assumptions C41_Step_deriv2_is_d2stepAny.
-
-Theorem C41_Step_deriv3 y0 y1 x0 x1 x : x0 <> x1 ->
-  step_deriv ROps y0 y1 x0 x1 3 x =
-    Some (if Rlt_dec 0 ((x - x0) / (x1 - x0)) then if Rlt_dec ((x - x0) / (x1 - x0)) 1
-          then k_d3stepAny ROps (y1 - y0) x0 (1 / (x1 - x0)) x else 0 else 0).
-Proof. exact (Step_deriv3 y0 y1 x0 x1 x). Qed.
-Print Assumptions C41_Step_deriv3.
-
-Theorem C41_Step_deriv_other_orders_throw y0 y1 x0 x1 k x : (k = 0 \/ 4 <= k)%nat -> step_deriv ROps y0 y1 x0 x1 k x = None.
-Proof. exact (Step_deriv_other_orders_throw y0 y1 x0 x1 k x). Qed.
-Print Assumptions C41_Step_deriv_other_orders_throw.
-
-Theorem C41_Step_deriv1_is_derive y0 y1 x0 x1 x : x0 <> x1 ->
-  is_derive (step_value ROps y0 y1 x0 x1) x (stepD y0 y1 x0 x1 1 x).
-Proof. exact (Step_deriv1_is_derive y0 y1 x0 x1 x). Qed.
-Print Assumptions C41_Step_deriv1_is_derive.
-
-Theorem C41_Step_deriv2_is_derive y0 y1 x0 x1 x : x0 <> x1 ->
-  is_derive (stepD y0 y1 x0 x1 1) x (stepD y0 y1 x0 x1 2 x).
-Proof. exact (Step_deriv2_is_derive y0 y1 x0 x1 x). Qed.
-Print Assumptions C41_Step_deriv2_is_derive.
-
-Theorem C41_Step_deriv2_continuous y0 y1 x0 x1 x : x0 <> x1 -> continuous (stepD y0 y1 x0 x1 2) x.
-Proof. exact (Step_deriv2_continuous y0 y1 x0 x1 x). Qed.
-Print Assumptions C41_Step_deriv2_continuous.
-
 Theorem C41_d2stepAny_flat_outside yr x0 oox x : (x - x0) * oox < 0 \/ 1 < (x - x0) * oox ->
   is_derive (fun t => k_d2stepAny ROps yr x0 oox t) x 0.
 Proof. exact (d2stepAny_flat_outside yr x0 oox x). Qed.
 Print Assumptions C41_d2stepAny_flat_outside.
-
-Theorem C41_Step_deriv3_is_derive y0 y1 x0 x1 x : x0 <> x1 -> x <> x0 -> x <> x1 ->
-  is_derive (stepD y0 y1 x0 x1 2) x (stepD y0 y1 x0 x1 3 x).
-Proof. exact (Step_deriv3_is_derive y0 y1 x0 x1 x). Qed.
-Print Assumptions C41_Step_deriv3_is_derive.
-
-Theorem C41_Step_end_values y0 y1 x0 x1 x : x0 <> x1 ->
-  ((x - x0) / (x1 - x0) <= 0 -> step_value ROps y0 y1 x0 x1 x = y0) /\
-  (1 <= (x - x0) / (x1 - x0) -> step_value ROps y0 y1 x0 x1 x = y1) /\
-  step_value ROps y0 y1 x0 x1 x0 = y0 /\ step_value ROps y0 y1 x0 x1 x1 = y1.
-Proof. exact (Step_end_values y0 y1 x0 x1 x). Qed.
-Print Assumptions C41_Step_end_values.
-
-Theorem C41_Step_end_values_forward y0 y1 x0 x1 x : x0 < x1 ->
-  (x <= x0 -> step_value ROps y0 y1 x0 x1 x = y0) /\ (x1 <= x -> step_value ROps y0 y1 x0 x1 x = y1).
-Proof. exact (Step_end_values_forward y0 y1 x0 x1 x). Qed.
-Print Assumptions C41_Step_end_values_forward.
-
-Theorem C41_Step_end_values_reversed y0 y1 x0 x1 x : x1 < x0 ->
-  (x0 <= x -> step_value ROps y0 y1 x0 x1 x = y0) /\ (x <= x1 -> step_value ROps y0 y1 x0 x1 x = y1).
-Proof. exact (Step_end_values_reversed y0 y1 x0 x1 x). Qed.
-Print Assumptions C41_Step_end_values_reversed.
-
-Theorem C41_Step_monotone y0 y1 x0 x1 a b : x0 < x1 -> y0 <= y1 -> a <= b ->
-  step_value ROps y0 y1 x0 x1 a <= step_value ROps y0 y1 x0 x1 b.
-Proof. exact (Step_monotone y0 y1 x0 x1 a b). Qed.
-Print Assumptions C41_Step_monotone.
-
-Theorem C41_Step_range y0 y1 x0 x1 x : x0 <> x1 -> y0 <= y1 -> y0 <= step_value ROps y0 y1 x0 x1 x <= y1.
-Proof. exact (Step_range y0 y1 x0 x1 x). Qed.
-Print Assumptions C41_Step_range.
-
-Theorem C41_self_consistent_partial :
-  (forall cs k x, is_derive_n (poly_value ROps cs) k x (poly_deriv ROps cs k x)) /\
-  (forall a w p n t, is_derive_n (sin_value ROps a w p) n t (sin_deriv ROps a w p n t)) /\
-  (forall cs dc i x, length cs = S (length x) -> (i < length x)%nat ->
-     is_derive (fun t => linF cs dc (upd i t x)) (nth i x 0) (lin_deriv ROps cs (i :: dc) x)) /\
-  (forall v dc i x, is_derive (fun t => constF v dc (upd i t x)) (nth i x 0) (const_deriv ROps v (i :: dc) x)) /\
-  (forall y0 y1 x0 x1 x, x0 <> x1 ->
-     is_derive (step_value ROps y0 y1 x0 x1) x (stepD y0 y1 x0 x1 1 x) /\
-     is_derive (stepD y0 y1 x0 x1 1) x (stepD y0 y1 x0 x1 2 x) /\
-     continuous (stepD y0 y1 x0 x1 2) x /\
-     (x <> x0 -> x <> x1 -> is_derive (stepD y0 y1 x0 x1 2) x (stepD y0 y1 x0 x1 3 x))) /\
-  (forall y0 y1 x0 x1 a b, x0 < x1 -> y0 <= y1 -> a <= b ->
-     step_value ROps y0 y1 x0 x1 a <= step_value ROps y0 y1 x0 x1 b) /\
-  (forall y0 y1 x0 x1 x, x0 <> x1 ->
-     ((x - x0) / (x1 - x0) <= 0 -> step_value ROps y0 y1 x0 x1 x = y0) /\
-     (1 <= (x - x0) / (x1 - x0) -> step_value ROps y0 y1 x0 x1 x = y1)) /\
-  (forall a b, a <= b -> k_stepUp ROps a <= k_stepUp ROps b) /\
-  (forall y0 yr x0 oox x, is_derive (fun t => k_stepAny ROps y0 yr x0 oox t) x (k_dstepAny ROps yr x0 oox x) /\
-     is_derive (fun t => k_dstepAny ROps yr x0 oox t) x (k_d2stepAny ROps yr x0 oox x) /\
-     continuous (fun t => k_d2stepAny ROps yr x0 oox t) x).
-Proof. exact (@self_consistent_partial). Qed.
-Print Assumptions C41_self_consistent_partial.
 
